@@ -2,6 +2,7 @@ package zkproof
 
 import (
 	"fmt"
+	"sync/atomic"
 
 	"github.com/bwesterb/go-exptable"
 	"github.com/privacybydesign/gabi/big"
@@ -19,6 +20,22 @@ type Group struct {
 
 	PMod     common.FastMod
 	OrderMod common.FastMod
+
+	// Set by a verifier that comes across a value which is not an element of the group. Shared
+	// by all copies of the Group (which is passed around by value).
+	tainted *atomic.Bool
+}
+
+// Taint records that a value which should have been an element of the group is not.
+func (g *Group) Taint() {
+	if g.tainted != nil {
+		g.tainted.Store(true)
+	}
+}
+
+// Tainted reports whether Taint has been called on this group or a copy of it.
+func (g *Group) Tainted() bool {
+	return g.tainted != nil && g.tainted.Load()
 }
 
 func BuildGroup(prime *big.Int) (Group, bool) {
@@ -43,6 +60,7 @@ func BuildGroup(prime *big.Int) (Group, bool) {
 
 	result.PMod.Set(result.P)
 	result.OrderMod.Set(result.Order)
+	result.tainted = new(atomic.Bool)
 
 	return result, true
 }
